@@ -97,7 +97,7 @@ def lean_audit(prop_id, log):
         res['problems'].append('audit file does not compile: ' + out[-800:])
         return res
     # "'X' depends on axioms: [a, b]"  |  "'X' does not depend on any axioms"
-    blocks = re.findall(r"'([^']+)' (does not depend on any axioms|depends on axioms: \[([^\]]*)\])", out)
+    blocks = re.findall(r"'([^'\s]+'*)' (does not depend on any axioms|depends on axioms: \[([^\]]*)\])", out)
     seen = {}
     for name, _, axs in blocks:
         ax = [a.strip() for a in axs.replace('\n', ' ').split(',') if a.strip()]
